@@ -36,8 +36,12 @@ fn main() {
         profile: "unknown".into(),
         tiny: false,
         known: Vec::new(),
+        hang_s: 120.0,
+        inflight_file: None,
+        out_file: None,
     };
     let mut out_file: Option<String> = None;
+    let mut list_families = false;
     let mut i = 1;
     while i < args.len() {
         let need = |i: usize| -> &str {
@@ -79,6 +83,7 @@ fn main() {
                 i += 1;
             }
             "--tiny" => cfg.tiny = true,
+            "--list-families" => list_families = true,
             "--replay" => {
                 let v = need(i);
                 let (f, idx) = v.rsplit_once(':').unwrap_or_else(|| {
@@ -96,6 +101,14 @@ fn main() {
                 out_file = Some(need(i).to_string());
                 i += 1;
             }
+            "--hang-seconds" => {
+                cfg.hang_s = need(i).parse().unwrap_or(120.0);
+                i += 1;
+            }
+            "--inflight-file" => {
+                cfg.inflight_file = Some(need(i).to_string());
+                i += 1;
+            }
             x => {
                 eprintln!("unknown argument {}", x);
                 std::process::exit(2);
@@ -104,6 +117,7 @@ fn main() {
         i += 1;
     }
 
+    cfg.out_file = out_file.clone();
     engine::install_panic_hook();
     let fams = match props::families_of(&cfg.property) {
         Some(f) => f,
@@ -112,6 +126,12 @@ fn main() {
             std::process::exit(2);
         }
     };
+    if list_families {
+        for f in &fams {
+            println!("{}", f.name());
+        }
+        return;
+    }
     let outcome = engine::run(&cfg, &fams);
     let report = engine::outcome_to_json(&cfg, &outcome).to_string();
     match out_file {
